@@ -201,14 +201,14 @@ theorem parse_date_chars (y m d : Nat) (hy : y < 10000) (hm : m < 100) (hd : d <
   · rw [parseItems_err (by rw [num0, item_num2 .month _ rfl rfl m hm, setNumeric, setMonth_eval _ rfl, if_neg h1]; rfl)]
     simp [h1]
 
-/-- fields after parsing `HH:MM:SS` with the items of `%H:%M:%S`, on top of date fields -/
-theorem parse_time_chars (h mi s : Nat) (hh : h < 100) (hmi : mi < 100) (hs : s < 100) (oy : Option Int) (om od : Option Nat) :
-    parseItems [num0 .hour, .literal [':'], num0 .minute, .literal [':'], num0 .second]
-      [(h / 10).digitChar, (h % 10).digitChar, ':', (mi / 10).digitChar, (mi % 10).digitChar, ':',
-       (s / 10).digitChar, (s % 10).digitChar] { year := oy, month := om, day := od } =
+/-- fields after parsing `HH:MM:SS` (followed by anything) with the items of `%H:%M:%S`, on top of date fields -/
+theorem parse_time_chars' (h mi s : Nat) (hh : h < 100) (hmi : mi < 100) (hs : s < 100) (oy : Option Int) (om od : Option Nat)
+    (r : Str) (its : List Item) :
+    parseItems (num0 .hour :: .literal [':'] :: num0 .minute :: .literal [':'] :: num0 .second :: its)
+      ((h / 10).digitChar :: (h % 10).digitChar :: ':' :: (mi / 10).digitChar :: (mi % 10).digitChar :: ':' ::
+       (s / 10).digitChar :: (s % 10).digitChar :: r) { year := oy, month := om, day := od } =
       if h < 24 ∧ mi < 60 ∧ s ≤ 60 then
-        .ok ([], { year := oy, month := om, day := od, hourDiv12 := some (h / 12), hourMod12 := some (h % 12),
-                   minute := some mi, second := some s })
+        parseItems its r { year := oy, month := om, day := od, hourDiv12 := some (h / 12), hourMod12 := some (h % 12), minute := some mi, second := some s }
       else .error .outOfRange := by
   by_cases h1 : h < 24
   · rw [parseItems_ok (by rw [num0, item_num2 .hour _ rfl rfl h hh, setNumeric, setHour_eval _ rfl rfl, if_pos h1]; rfl),
@@ -218,13 +218,24 @@ theorem parse_time_chars (h mi s : Nat) (hh : h < 100) (hmi : mi < 100) (hs : s 
         parseItems_ok (item_lit _ _ _)]
       by_cases h3 : s ≤ 60
       · rw [parseItems_ok (by rw [num0, item_num2 .second _ rfl rfl s hs, setNumeric, setSecond_eval _ rfl, if_pos h3]; rfl)]
-        simp [parseItems, h1, h2, h3]
+        simp [h1, h2, h3]
       · rw [parseItems_err (by rw [num0, item_num2 .second _ rfl rfl s hs, setNumeric, setSecond_eval _ rfl, if_neg h3]; rfl)]
         simp [h3]
     · rw [parseItems_err (by rw [num0, item_num2 .minute _ rfl rfl mi hmi, setNumeric, setMinute_eval _ rfl, if_neg h2]; rfl)]
       simp [h2]
   · rw [parseItems_err (by rw [num0, item_num2 .hour _ rfl rfl h hh, setNumeric, setHour_eval _ rfl rfl, if_neg h1]; rfl)]
     simp [h1]
+
+theorem parse_time_chars (h mi s : Nat) (hh : h < 100) (hmi : mi < 100) (hs : s < 100) (oy : Option Int) (om od : Option Nat) :
+    parseItems [num0 .hour, .literal [':'], num0 .minute, .literal [':'], num0 .second]
+      [(h / 10).digitChar, (h % 10).digitChar, ':', (mi / 10).digitChar, (mi % 10).digitChar, ':',
+       (s / 10).digitChar, (s % 10).digitChar] { year := oy, month := om, day := od } =
+      if h < 24 ∧ mi < 60 ∧ s ≤ 60 then
+        .ok ([], { year := oy, month := om, day := od, hourDiv12 := some (h / 12), hourMod12 := some (h % 12),
+                   minute := some mi, second := some s })
+      else .error .outOfRange := by
+  rw [parse_time_chars' h mi s hh hmi hs oy om od [] []]
+  simp [parseItems]
 
 theorem validDate_bounds {y : Int} {m d : Nat} (hv : validDate y m d = true) : (1 ≤ m ∧ m ≤ 12) ∧ (1 ≤ d ∧ d ≤ 31) := by
   obtain ⟨_, hm1, hm12, hd1, hd⟩ := (validDate_iff y m d).1 hv
